@@ -229,7 +229,7 @@ pub fn run_property(prop: &'static dyn Prop, tier: Tier, seed: u64, root: &Path)
             }
             if let Some(rf) = restart_from {
                 sh.restarts += 1;
-                if sh.restarts > 40 {
+                if sh.restarts > 400 {
                     sh.gave_up = true;
                     continue;
                 }
